@@ -96,16 +96,22 @@ var (
 	sPrioFloor int32
 
 	// strategy parameters
-	sP        uint64 // random: switch with probability 1/sP
-	sQ        uint32 // rr quantum
-	sPrio     [maxTasks]int32
-	sCP       [4]uint64 // PCT change points (steps)
-	sNCP      int
-	sStallT   int
-	sStallAt  uint32
-	sStallK   int32
-	sStallOn  bool
-	sStallHit uint64
+	sP         uint64 // random: switch with probability 1/sP
+	sQ         uint32 // rr quantum
+	sPrio      [maxTasks]int32
+	sCP        [4]uint64 // PCT change points (steps)
+	sNCP       int
+	sStallT    int
+	sStallAt   uint32
+	sStallK    int32
+	sStallOn   bool
+	sStallHit  uint64
+	sStallMax  uint64
+	sStallGap  uint32
+	sStallHot  bool
+	sStallBase [maxTasks]int32
+	siteHot    []bool
+	treeHot    int // number of yield sites in front of statements that touch shared state (0 on the pinned tree, apart from a few false positives)
 
 	// replay of an explicit switch list (per task queues)
 	sRepl    [maxTasks][]SwRec
@@ -370,13 +376,28 @@ func decide(me int, site int) int {
 		}
 		return me
 	case stratRandom, stratStall:
-		if sStrat == stratStall && !sStallOn && me == sStallT && sLocalY[me] >= sStallAt && site >= 0 && sStallHit == 0 {
-			// freeze this task in the middle of an operation
-			if o := runnableOther(me); o >= 0 {
-				sStallOn = true
-				sStallHit++
-				sState[me] = stFrozen
-				return o
+		if sStrat == stratStall && !sStallOn && site >= 0 && sStallHit < sStallMax {
+			freeze := false
+			if sStallHot {
+				// any task, in front of a statement that touches shared state: the window in which everybody else
+				// sees the first half of an update stays open until the others have done sStallK operations each
+				freeze = site < len(siteHot) && siteHot[site] && sStep >= uint64(sStallAt) && rnd()%3 == 0
+			} else {
+				freeze = me == sStallT && sLocalY[me] >= sStallAt
+			}
+			if freeze {
+				// freeze this task in the middle of an operation
+				if o := runnableOther(me); o >= 0 {
+					sStallOn = true
+					sStallHit++
+					sStallT = me
+					sStallAt = sLocalY[me] + sStallGap
+					for i := 0; i < sN; i++ {
+						sStallBase[i] = sOpsDone[i]
+					}
+					sState[me] = stFrozen
+					return o
+				}
 			}
 		}
 		if rnd()%sP == 0 {
@@ -427,7 +448,7 @@ func stallCheck() {
 		if i == sStallT {
 			continue
 		}
-		if sState[i] == stRunnable && sOpsDone[i] < sStallK {
+		if sState[i] == stRunnable && sOpsDone[i]-sStallBase[i] < sStallK {
 			return
 		}
 	}
@@ -714,6 +735,10 @@ func schedReset(n int, c *SchedConfig) {
 	sStallOn = false
 	sStallHit = 0
 	sStallT, sStallAt, sStallK = c.StallT, c.StallAt, c.StallK
+	sStallHot, sStallMax, sStallGap = c.StallHot, uint64(c.StallMax), c.StallAt/2+1
+	if sStallMax == 0 {
+		sStallMax = 1
+	}
 	sNCP = 0
 	if c.Strat == stratPCT {
 		for i := 0; i < n && i < len(c.Prio); i++ {
